@@ -1,11 +1,12 @@
 import CoupeModel.Model.Basic
 import CoupeModel.Model.ArcSwap
 import CoupeModel.Proofs.ArcSwapRun
+import CoupeModel.Proofs.ArcSwapTerm
 
 /-!
 # C05 — ArcSwap's accounting and caps hold under every thread interleaving
 
-Property theorems only (lemmas: `Proofs/ArcSwap{Wf,Lock,Inv,Cut,Acct,Run}.lean`).
+Property theorems only (lemmas: `Proofs/ArcSwap{Wf,Lock,Inv,Cut,Acct,Run,Term}.lean`).
 
 The model (`Model/ArcSwap.lean`) is a transition system whose steps are the hooked
 shared-memory accesses of `arc_swap` (lock CAS / load / store, part load / store, task
@@ -146,14 +147,123 @@ theorem runSeq_correct {g : Graph} {w : List Int} {maxPw : Int} {threads fuel pa
   obtain ⟨a, b, d, e, -, -⟩ := arcswap_correct hy this
   exact ⟨a, b, d, e⟩
 
-/-- NOT PROVED (stated for the record, the only item of the plan left open): a pass always
-ends — from every reachable state, running the remaining tasks one after another reaches a
-state in which every task is done, for some fuel.  (Every move lowers the cut, and between
-two moves a task only pops its `cut` stack; the driver's fuel was never exhausted in any
-run.)  `passes_terminate` above bounds the number of passes, not the steps inside one. -/
+/-! ### no panic, termination, totality (lemmas: `Proofs/ArcSwapTerm.lean`) -/
+
+/-- `no_panic_reachable`: the model's only abort state, `Pc.panic` (`max_by(..).unwrap()` /
+`.max().unwrap()` on an empty range of target parts), is unreachable: no task of any reachable
+state is in it (needs only `part_count ≥ 2`, part of `CfgOk`). -/
+theorem no_panic_reachable (hc : CfgOk c p₀) (h : Reach c p₀ s) : ∀ t ∈ s.tasks, t.pc ≠ .panic :=
+  noPanic_reach hc h
+
+/-- …hence the executable pass loop never reports a panic, whatever the schedules, the fuel and
+the number of passes allowed. -/
+theorem run_never_panics (hc : CfgOk c p₀) (scheds : List (List Nat)) (fuel passes : Nat) :
+    (run c p₀ scheds fuel passes).1 ≠ .panic :=
+  run_ne_panic hc scheds fuel passes
+
+/-- `pass_steps_bounded`: the measure.  `stepsLeft c s = (cut(s.parts) + negW) · U + Σ_tasks pot`
+(`Proofs/ArcSwapTerm.lean`: `negW` = sum of the negative parts of the edge weights, `0` when
+there is none; `U`, `pot` explicit polynomials in the largest degree and `part_count`) is
+strictly lowered by EVERY step of EVERY task in every reachable state, and it is at most
+`fuelBound c p₀`, a function of the input only.  So whatever the schedule (any list of task
+ids, of any length), the steps it executes plus what is left afterwards never exceed what was
+left before: no pass performs more than `fuelBound c p₀` steps. -/
+theorem pass_steps_bounded (hy : Hyp c p₀) (h : Reach c p₀ s) :
+    stepsLeft c s ≤ fuelBound c p₀ ∧
+    (∀ (tid : Nat) (s' : State) (ev : Event), step c s tid = some (s', ev) → stepsLeft c s' < stepsLeft c s) ∧
+    ∀ sched : List Nat,
+      (runSchedule c s sched []).2.length + stepsLeft c (runSchedule c s sched []).1 ≤ stepsLeft c s :=
+  ⟨mu_le_fuelBound hy h, fun _ _ _ hst => step_decreases hy h hst, fun sched => by
+    have := runSchedule_mu hy sched [] h
+    simpa using this⟩
+
+/-- No deadlock: in a reachable state in which some task is not done, some task is enabled
+(a failed CAS or a locked neighbour makes a task give the vertex up, nobody waits). -/
+theorem pass_no_deadlock (hc : CfgOk c p₀) (h : Reach c p₀ s) (hnd : allDone s = false) :
+    ∃ tid s' ev, step c s tid = some (s', ev) :=
+  progress hc h hnd
+
+/-- Fairness form: a schedule that keeps scheduling enabled tasks long enough — one whose
+executed steps (entries naming a finished task are skipped and do not count) number at least
+`stepsLeft c s` — has driven the pass to completion; by `pass_steps_bounded` it cannot
+execute more, by `pass_no_deadlock` it can only get stuck there. -/
+theorem pass_complete_of_long_schedule (hy : Hyp c p₀) (h : Reach c p₀ s) (sched : List Nat)
+    (hlen : stepsLeft c s ≤ (runSchedule c s sched []).2.length) :
+    allDone (runSchedule c s sched []).1 = true :=
+  allDone_of_long hy h sched hlen
+
+/-- `pass_terminates`: from every reachable state, after ANY schedule prefix, running the
+remaining tasks one after another (what `run` does) reaches a state in which every task is
+done, with any fuel above `stepsLeft c s` (`≤ fuelBound c p₀`); the whole pass executed at
+most `stepsLeft c s` steps. -/
+theorem pass_terminates (hy : Hyp c p₀) (h : Reach c p₀ s) (sched : List Nat) {fuel : Nat}
+    (hf : stepsLeft c s < fuel) :
+    ∃ s' tr, finishPass c fuel (runSchedule c s sched []).1 (runSchedule c s sched []).2 = some (s', tr) ∧
+      allDone s' = true ∧ tr.length ≤ stepsLeft c s := by
+  have h2 := runSchedule_reach sched [] h
+  have hm := runSchedule_mu hy sched [] h
+  simp only [List.length_nil, Nat.zero_add] at hm
+  obtain ⟨s', tr, hfin⟩ := finishPass_total hy fuel (runSchedule c s sched []).2 h2 (by omega)
+  obtain ⟨h3, hlive⟩ := finishPass_reach fuel h2 hfin
+  have := finishPass_mu hy fuel h2 hfin
+  exact ⟨s', tr, hfin, allDone_of_firstLive hlive (noPanic_any (noPanic_reach hy.cfg h3)), by omega⟩
+
+/-- The statement left open in the first version of this file (kept for the record; it is the
+instance `sched = []` of `pass_terminates`, with the explicit fuel `stepsLeft c s + 1`). -/
 def pass_terminates_statement : Prop :=
   ∀ (c : Cfg) (p₀ : List Nat) (s : State), Hyp c p₀ → Reach c p₀ s →
     ∃ fuel s' tr, finishPass c fuel s [] = some (s', tr)
+
+theorem pass_terminates_proved : pass_terminates_statement := by
+  intro c p₀ s hy h
+  obtain ⟨s', tr, hfin, -⟩ := pass_terminates hy h [] (Nat.lt_succ_self _)
+  exact ⟨_, s', tr, hfin⟩
+
+/-- `arcswap_terminates` (totality): under EVERY list of schedules the pass loop returns `ok`
+(no panic, no hang) as soon as the fuel of a pass exceeds `fuelBound c p₀` and the number of
+passes allowed reaches `passesBound c p₀ = cut(input) + negW + 1` — explicit functions of
+the input, independent of the schedules.  Edge weights of any sign. -/
+theorem arcswap_terminates (hy : Hyp c p₀) (scheds : List (List Nat)) {fuel passes : Nat}
+    (hf : fuelBound c p₀ < fuel) (hp : passesBound c p₀ ≤ passes) :
+    ∃ ids md tr, run c p₀ scheds fuel passes = (.ok ids md, tr) :=
+  run_total hy scheds hf hp
+
+/-- With non-negative edge weights the bounds are the input's cut (+1) and `cut · U` + the cost
+of the chunk scans. -/
+theorem bounds_of_nonneg_weights (c : Cfg) (p₀ : List Nat) (hw : ∀ e ∈ edges c.g, 0 ≤ e.2.2) :
+    passesBound c p₀ = (cut c.g p₀).toNat + 1 ∧
+    fuelBound c p₀ = (cut c.g p₀).toNat * cU (maxDeg c.g) c.partCount +
+      c.threadCount * (c.ipt * cS (maxDeg c.g) c.partCount + 2) := by
+  unfold passesBound fuelBound movesLeft
+  rw [negW_eq_zero hw]
+  simp
+
+/-- `arcswap_correct` without its hypothesis: for every list of schedules the run (with
+enough fuel and passes, see `arcswap_terminates`) DOES return, and what it returns is a valid
+partition whose cut is the input's cut minus the reported `edge_cut_gain ≥ 0`, within the caps,
+with `move_count` at least the number of relabelled vertices. -/
+theorem arcswap_total_correct (hy : Hyp c p₀) (scheds : List (List Nat)) {fuel passes : Nat}
+    (hf : fuelBound c p₀ < fuel) (hp : passesBound c p₀ ≤ passes) :
+    ∃ ids md tr, run c p₀ scheds fuel passes = (.ok ids md, tr) ∧
+      ids.length = p₀.length ∧ (∀ p ∈ ids, p < c.partCount) ∧
+      cut c.g ids = cut c.g p₀ - md.edgeCutGain ∧ 0 ≤ md.edgeCutGain ∧
+      (∀ p, p < c.partCount → Coupe.load c.w ids p ≤ max (Coupe.load c.w p₀ p) c.maxPw) ∧
+      countDiff ids p₀ ≤ md.moveCount := by
+  obtain ⟨ids, md, tr, hr⟩ := arcswap_terminates hy scheds hf hp
+  exact ⟨ids, md, tr, hr, arcswap_correct hy hr⟩
+
+/-- The sequential instance returns, too. -/
+theorem runSeq_total {g : Graph} {w : List Int} {maxPw : Int} {threads fuel passes : Nat}
+    (hy : Hyp (mkCfg g w p₀ maxPw threads) p₀)
+    (hf : fuelBound (mkCfg g w p₀ maxPw threads) p₀ < fuel)
+    (hp : passesBound (mkCfg g w p₀ maxPw threads) p₀ ≤ passes) :
+    ∃ ids md, runSeq g w p₀ maxPw threads fuel passes = .ok ids md ∧
+      ids.length = p₀.length ∧ (∀ p ∈ ids, p < partCountOf p₀) ∧
+      cut g ids = cut g p₀ - md.edgeCutGain ∧ 0 ≤ md.edgeCutGain := by
+  obtain ⟨ids, md, tr, hr⟩ := arcswap_terminates hy [] hf hp
+  have hs : runSeq g w p₀ maxPw threads fuel passes = .ok ids md := by
+    unfold runSeq; rw [hr]
+  exact ⟨ids, md, hs, runSeq_correct hy hs⟩
 
 /-! ### non-vacuity -/
 
@@ -205,6 +315,18 @@ example : ∃ s, Reach exCfg [0, 1, 0] s ∧ lsOf s 0 = some (.valid 1) ∧ lsOf
       (List.replicate 18 0 ++ [1, 1, 1, 1]) []).1, runSchedule_reach _ _ Reach.init, ?_, ?_, ⟨1, ?_, ?_⟩, ?_⟩ <;>
     decide +kernel
 
+/-- The bounds on that instance: at most 3 passes (the run above needs exactly 3) and at most
+232 steps per pass; the fuel `1000` and the `10` passes of the run above are provably enough. -/
+example : passesBound exCfg [0, 1, 0] = 3 ∧ fuelBound exCfg [0, 1, 0] = 232 := by decide +kernel
+
+example (scheds : List (List Nat)) : ∃ ids md tr, run exCfg [0, 1, 0] scheds 1000 10 = (.ok ids md, tr) :=
+  arcswap_terminates (hyp_of_check (by decide)) scheds (by decide +kernel) (by decide +kernel)
+
+/-- A negative edge weight (`negW = 2`: the two stored entries `-1`): the bounds still apply. -/
+example : Hyp (mkCfg [[(1, -1)], [(0, -1)]] [1, 1] [0, 0] 2 2) [0, 0] ∧
+    passesBound (mkCfg [[(1, -1)], [(0, -1)]] [1, 1] [0, 0] 2 2) [0, 0] = 3 :=
+  ⟨hyp_of_check (by decide), by decide +kernel⟩
+
 end Coupe.ArcSwap
 
 #print axioms Coupe.ArcSwap.ids_valid
@@ -219,3 +341,14 @@ end Coupe.ArcSwap
 #print axioms Coupe.ArcSwap.arcswap_correct
 #print axioms Coupe.ArcSwap.runSeq_correct
 #print axioms Coupe.ArcSwap.hyp_of_check
+#print axioms Coupe.ArcSwap.no_panic_reachable
+#print axioms Coupe.ArcSwap.run_never_panics
+#print axioms Coupe.ArcSwap.pass_steps_bounded
+#print axioms Coupe.ArcSwap.pass_no_deadlock
+#print axioms Coupe.ArcSwap.pass_complete_of_long_schedule
+#print axioms Coupe.ArcSwap.pass_terminates
+#print axioms Coupe.ArcSwap.pass_terminates_proved
+#print axioms Coupe.ArcSwap.arcswap_terminates
+#print axioms Coupe.ArcSwap.bounds_of_nonneg_weights
+#print axioms Coupe.ArcSwap.arcswap_total_correct
+#print axioms Coupe.ArcSwap.runSeq_total
